@@ -30,6 +30,7 @@ type Script struct {
 	Stall      int // 0 none, 1 released by the scheduler at will, 2 only in the drain phase
 	Panic      bool
 	Resps      []*RespSpec
+	ReuseCtrl  bool // keep one paging control object across the responses
 	StartTLS   bool // call Request.StartTLS after the first response
 	StallAfter int  // StartTLS only: stall between reply and handshake (1) or after handshake (2)
 }
@@ -65,8 +66,9 @@ type Req struct {
 }
 
 type writeRes struct {
-	k   int
-	err string
+	k     int
+	again bool
+	err   string
 }
 
 const (
@@ -87,11 +89,13 @@ type CStep struct {
 }
 
 type Client struct {
-	Idx     int
-	Flavour int // 0 plain
-	Steps   []CStep
-	Window  int
-	Late    bool // connects only after a fault (C07 accepts-after) or after Stop
+	Idx         int
+	Flavour     int // 0 plain
+	Steps       []CStep
+	Window      int
+	Late        bool // connects only after a fault (C07 accepts-after) or after Stop
+	StartPaused bool // does not read from the start (C06 write-block variant)
+	Eager       bool // StartTLS flavour, C15 only: asks for StartTLS with earlier requests still outstanding
 	// Behaviour: "" conforming; C18 misbehaviours: plaintext garbage silent abandon nocert wrongca
 	Behaviour string
 	Offending bool // must never reach a handler under the server's TLS configuration
@@ -106,6 +110,7 @@ type Client struct {
 
 	pc         int
 	ep         *simrt.Conn
+	dialStep   int
 	dialed     bool
 	refused    bool
 	rx         []byte
@@ -148,6 +153,7 @@ type CoreCfg struct {
 	Clients []*Client
 
 	HoldAll    bool // every handler stalls; checkpoint at first quiescence (C06)
+	HoldWrite  bool // C06 variant: handlers block in Write (non-reading clients) instead of stalling
 	StopMode   int  // 0 only in teardown, 1 during the run, 2 before Run
 	StopAt     int  // step after which the stop action becomes enabled
 	SecondStop bool
@@ -223,12 +229,22 @@ func (c *Core) handler(route int) gldap.HandlerFunc {
 		sc := q.Script
 		if sc.Stall != 0 {
 			simrt.Park("stall", "m"+strconv.FormatInt(id, 10), nil)
+			if !lean {
+				// what the handler was given must not change under it while
+				// later requests are decoded (C01, C14)
+				act, kinds := ActualOf(r)
+				simrt.Emit("h-recheck", connID, id, int64(route), int64(r.ID), "", &Entered{Act: act, Kinds: kinds})
+			}
 		}
 		if sc.Panic {
 			panic(fmt.Sprintf("sim: scripted handler panic (m=%d)", id))
 		}
+		var reuse *ctrlReuse
+		if sc.ReuseCtrl {
+			reuse = &ctrlReuse{}
+		}
 		for k, sp := range sc.Resps {
-			resp, pv := sp.Build(r)
+			resp, again, pv := sp.Build(r, reuse)
 			if resp == nil {
 				simrt.Emit("h-ctor-panic", connID, id, int64(k), 0, fmt.Sprint(pv), nil)
 				continue
@@ -239,6 +255,15 @@ func (c *Core) handler(route int) gldap.HandlerFunc {
 				es = err.Error()
 			}
 			simrt.Emit("h-write", connID, id, int64(k), 0, es, nil)
+			if again != nil {
+				again()
+				err := w.Write(resp)
+				es := ""
+				if err != nil {
+					es = err.Error()
+				}
+				simrt.Emit("h-write", connID, id, int64(k), 1, es, nil)
+			}
 		}
 		if sc.StartTLS {
 			if sc.StallAfter&1 != 0 {
@@ -450,7 +475,19 @@ func (c *Core) answered(q *Req) bool {
 	if !q.Rec.Supported() || q.BehindUnbind || q.Rec.Op == "unbind" {
 		return true
 	}
-	return len(q.got) >= len(q.Script.Resps)-q.ctorPanic
+	return len(q.got) >= wantFrames(q)-q.ctorPanic
+}
+
+// wantFrames is the number of frames the request's script writes.
+func wantFrames(q *Req) int {
+	want := 0
+	for _, sp := range q.Script.Resps {
+		want++
+		if len(sp.Again) > 0 {
+			want++
+		}
+	}
+	return want
 }
 
 func (c *Core) Actions(s *Sim, acts []Action) []Action {
@@ -474,7 +511,7 @@ func (c *Core) Actions(s *Sim, acts []Action) []Action {
 		if cl.ep == nil {
 			continue
 		}
-		if cl.paused && !(stopped && cfg.PassiveEnd) {
+		if cl.paused && !(stopped && cfg.PassiveEnd) && !c.held {
 			w := s.WHarness
 			if !c.drain {
 				w = 1
@@ -532,6 +569,7 @@ func (c *Core) Actions(s *Sim, acts []Action) []Action {
 
 func (c *Core) connect(s *Sim, cl *Client) {
 	cl.dialed = true
+	cl.dialStep = s.Steps
 	ep := s.W.Dial(c.Cfg.Port, cl.Flavour == 0)
 	if ep == nil {
 		cl.refused = true
@@ -540,6 +578,7 @@ func (c *Core) connect(s *Sim, cl *Client) {
 		return
 	}
 	cl.ep = ep
+	cl.paused = cl.StartPaused
 	c.byEP[ep.ID] = cl
 	if cl.Window > 0 {
 		ep.Peer.SetOutWindow(cl.Window)
@@ -728,6 +767,8 @@ func (c *Core) OnEvent(s *Sim, e *simrt.Event) {
 		}
 	case "h-enter":
 		c.onEnter(s, e)
+	case "h-recheck":
+		c.onRecheck(s, e)
 	case "h-exit":
 		if q := c.reqs[e.Msg]; q != nil {
 			q.exited++
@@ -735,7 +776,7 @@ func (c *Core) OnEvent(s *Sim, e *simrt.Event) {
 		}
 	case "h-write":
 		if q := c.reqs[e.Msg]; q != nil {
-			q.writes = append(q.writes, writeRes{k: int(e.A), err: e.S})
+			q.writes = append(q.writes, writeRes{k: int(e.A), again: e.B == 1, err: e.S})
 		}
 	case "h-ctor-panic":
 		if q := c.reqs[e.Msg]; q != nil {
